@@ -29,6 +29,7 @@ func runC11(r *engine.Run) {
 	r.Rule("ERR-dropped", "see C17: the error of every trie / storage operation of the weighted trie is looked at (deliberate drops in the rollback paths are listed with reasons)")
 	r.Rule("AGREE-persist", "see C10: every field Serialize writes is read back by DeserializeNode (a reopened trie is rebuilt from exactly what was saved)")
 	r.Rule("DOM-memo", "see C09: CalcHash stores what it recomputes (Save writes the node under Hash())")
+	r.Rule("AGREE-decode", "see C10: DeserializeNode accumulates a branch's weight from the child weights it reads and stores every accepted child entry into a child slot; shortNode.Serialize fills the persisted value reference from the value's Hash() and Weight()")
 	r.NotDec = append(r.NotDec, "that a reopened trie is observationally identical (value-level)", "atomicity of the storage engine's batches (the atomic unit by the property's quantifier)")
 	domSave(r)
 	domCreated(r, "DOM-created")
@@ -41,7 +42,8 @@ func runC11(r *engine.Run) {
 	refShared(r, "REF-shared")
 	agreePersist(r, "AGREE-persist")
 	domMemo(r, "DOM-memo")
-	errGuard(r, "ERR-guard", "ERR-dropped", funcsOfPkg(r, pkgWMPT), 20)
+	agreeDecode(r, "AGREE-decode")
+	errGuard(r, "ERR-guard", "ERR-dropped", funcsOfPkg(r, pkgWMPT), 10)
 }
 
 func domSave(r *engine.Run) {
@@ -269,6 +271,18 @@ func agreePurge(r *engine.Run) {
 		}
 	}
 	if handler == nil {
+		// renamed channel: the handler is the closure that records created hashes
+		for _, a := range f.AnonFuncs {
+			engine.Instrs(a, func(in ssa.Instruction) {
+				if st, ok := in.(*ssa.Store); ok {
+					if fld := engine.FieldOf(st.Addr); fld != nil && fld.Name() == "created" {
+						handler = a
+					}
+				}
+			})
+		}
+	}
+	if handler == nil {
 		r.Anchor(rule, fmt.Errorf("unresolved anchor: created-hash handler in %s", fn(f)))
 		return
 	}
@@ -357,12 +371,7 @@ func domCreated(r *engine.Run, rule string) {
 	if f == nil {
 		return
 	}
-	var createdCh ssa.Value
-	for _, p := range f.Params {
-		if p.Name() == "createdChan" {
-			createdCh = p
-		}
-	}
+	createdCh := paramRole(f, "createdChan")
 	if createdCh == nil {
 		r.Anchor(rule, fmt.Errorf("unresolved anchor: created channel of %s", fn(f)))
 		return
@@ -375,22 +384,23 @@ func domCreated(r *engine.Run, rule string) {
 			continue
 		}
 		var save *ssa.Call
-		var sends []*ssa.Send
+		var sends []ssa.Instruction
 		for b := range arm.blocks {
 			for _, in := range b.Instrs {
-				switch x := in.(type) {
-				case *ssa.Call:
+				if x, ok := in.(*ssa.Call); ok {
 					if recv, ok := engine.IsMethodCall(x, "Save"); ok && recv == arm.asserted {
 						save = x
 					}
-				case *ssa.Send:
-					if x.Chan == createdCh {
-						if hc, ok := x.X.(*ssa.Call); ok {
-							if recv, ok := engine.IsMethodCall(hc, "Hash"); ok && recv == arm.asserted {
-								sends = append(sends, x)
-							}
-						}
-					}
+				}
+			}
+		}
+		for _, ev := range chanEvents(f, createdCh) {
+			if !arm.blocks[ev.At.Block()] || ev.Val == nil {
+				continue
+			}
+			if hc, ok := ev.Val.(*ssa.Call); ok {
+				if recv, ok := engine.IsMethodCall(hc, "Hash"); ok && recv == arm.asserted {
+					sends = append(sends, ev.At)
 				}
 			}
 		}
@@ -437,12 +447,7 @@ func domUnchangedIn(r *engine.Run, rule, name string) int {
 	if f == nil {
 		return 0
 	}
-	var deleteCh ssa.Value
-	for _, p := range f.Params {
-		if p.Name() == "deleteChan" {
-			deleteCh = p
-		}
-	}
+	deleteCh := paramRole(f, "deleteChan")
 	if deleteCh == nil {
 		// the exported entry creates the channel and hands it to the collector
 		engine.Instrs(f, func(in ssa.Instruction) {
@@ -457,38 +462,51 @@ func domUnchangedIn(r *engine.Run, rule, name string) int {
 	}
 	n := 0
 	o := ord{}
-	engine.Instrs(f, func(in ssa.Instruction) {
-		s, ok := in.(*ssa.Send)
-		if !ok || chanCell(s.Chan) != chanCell(deleteCh) {
-			return
+	isHashCall := func(v ssa.Value) bool {
+		hc, isCall := v.(*ssa.Call)
+		if !isCall {
+			return false
 		}
+		_, isHash := engine.IsMethodCall(hc, "Hash")
+		return isHash
+	}
+	for _, ev := range chanEvents(f, deleteCh) {
 		n++
 		good := false
-		engine.Instrs(f, func(i2 ssa.Instruction) {
-			c, ok := i2.(*ssa.Call)
-			if !ok || !extCalleeIs(c, "bytes", "", "Equal") {
-				return
+		if ev.Helper != nil {
+			// guarded inside the helper: the sent value is compared with a Hash() the caller passes
+			if ev.Val != nil && ev.GuardA != nil && ev.GuardB != nil {
+				if ev.GuardA == ev.Val && isHashCall(ev.GuardB) || ev.GuardB == ev.Val && isHashCall(ev.GuardA) {
+					good = true
+				}
 			}
-			a, b := stripCT(c.Call.Args[0]), stripCT(c.Call.Args[1])
-			if a != s.X && b != s.X {
-				return
-			}
-			other := a
-			if a == s.X {
-				other = b
-			}
-			if hc, isCall := other.(*ssa.Call); !isCall {
-				return
-			} else if _, isHash := engine.IsMethodCall(hc, "Hash"); !isHash {
-				return
-			}
-			if truthAt(f, s.Block(), c, false) {
-				good = true
-			}
-		})
-		r.Check(good, rule, o.next(fn(f)+"|schedule previous hash"), r.P.Pos(s.Pos()), "reached only when bytes.Equal(previous hash, new Hash()) tested false",
+		}
+		if !good {
+			at := ev.At
+			engine.Instrs(f, func(i2 ssa.Instruction) {
+				c, ok := i2.(*ssa.Call)
+				if !ok || !extCalleeIs(c, "bytes", "", "Equal") || ev.Val == nil {
+					return
+				}
+				a, b := stripCT(c.Call.Args[0]), stripCT(c.Call.Args[1])
+				if a != ev.Val && b != ev.Val {
+					return
+				}
+				other := a
+				if a == ev.Val {
+					other = b
+				}
+				if !isHashCall(other) {
+					return
+				}
+				if truthAt(f, at.Block(), c, false) {
+					good = true
+				}
+			})
+		}
+		r.Check(good, rule, o.next(fn(f)+"|schedule previous hash"), r.P.Pos(ev.At.Pos()), "reached only when bytes.Equal(previous hash, new Hash()) tested false",
 			"the previous hash of a saved node is scheduled for collection without testing that the hash changed: a node that is dirty but hashes as before is live, and two collection passes later it is deleted from storage")
-	})
+	}
 	return n
 }
 
@@ -504,12 +522,7 @@ func refShared(r *engine.Run, rule string) {
 	if f == nil {
 		return
 	}
-	var prefix ssa.Value
-	for _, p := range f.Params {
-		if p.Name() == "prefix" {
-			prefix = p
-		}
-	}
+	prefix := paramRole(f, "prefix")
 	if prefix == nil {
 		r.Anchor(rule, fmt.Errorf("unresolved anchor: prefix parameter of %s", fn(f)))
 		return
@@ -621,4 +634,78 @@ func chanCell(v ssa.Value) ssa.Value {
 		}
 	}
 	return v
+}
+
+// ---- channel events: sends made directly or through a small helper ------------------
+
+// chanEvent is one "hash v is sent on channel ch" at instruction At of the
+// caller: a direct send, or a call of a helper that receives the channel and
+// sends one of its parameters on it.
+type chanEvent struct {
+	At  ssa.Instruction
+	Val ssa.Value // the value sent, in terms of the caller
+	// Guard: the send happens only where bytes.Equal(GuardA, GuardB) tested false
+	// (caller terms); nil when unguarded or guarded in the caller itself.
+	GuardA, GuardB ssa.Value
+	Helper         *ssa.Function
+}
+
+func chanEvents(f *ssa.Function, ch ssa.Value) []chanEvent {
+	var out []chanEvent
+	engine.Instrs(f, func(in ssa.Instruction) {
+		switch x := in.(type) {
+		case *ssa.Send:
+			if chanCell(x.Chan) == chanCell(ch) {
+				out = append(out, chanEvent{At: x, Val: x.X})
+			}
+		case *ssa.Call:
+			g := x.Call.StaticCallee()
+			if g == nil || g == f || len(g.Blocks) == 0 {
+				return
+			}
+			// a recursive function is a walk of its own (analysed by itself), not a helper
+			selfRec := false
+			engine.Instrs(g, func(i2 ssa.Instruction) {
+				if c2, ok := i2.(*ssa.Call); ok && c2.Call.StaticCallee() == g {
+					selfRec = true
+				}
+			})
+			if selfRec {
+				return
+			}
+			for ai, a := range x.Call.Args {
+				if chanCell(a) != chanCell(ch) || ai >= len(g.Params) {
+					continue
+				}
+				gp := g.Params[ai]
+				argOf := func(v ssa.Value) ssa.Value {
+					for j, p := range g.Params {
+						if ssa.Value(p) == v && j < len(x.Call.Args) {
+							return x.Call.Args[j]
+						}
+					}
+					return nil
+				}
+				engine.Instrs(g, func(i2 ssa.Instruction) {
+					sd, ok := i2.(*ssa.Send)
+					if !ok || sd.Chan != ssa.Value(gp) {
+						return
+					}
+					ev := chanEvent{At: x, Val: argOf(sd.X), Helper: g}
+					// guard inside the helper
+					engine.Instrs(g, func(i3 ssa.Instruction) {
+						eq, ok := i3.(*ssa.Call)
+						if !ok || !extCalleeIs(eq, "bytes", "", "Equal") {
+							return
+						}
+						if truthAt(g, sd.Block(), eq, false) {
+							ev.GuardA, ev.GuardB = argOf(stripCT(eq.Call.Args[0])), argOf(stripCT(eq.Call.Args[1]))
+						}
+					})
+					out = append(out, ev)
+				})
+			}
+		}
+	})
+	return out
 }
